@@ -219,11 +219,13 @@ def case_pad(ctx, pym, cs, grid, pads, modes, tag='pad'):
     xp = m.get_padded_vector(x)
     g = f'(G {nx} {ny} {nz})'
     c = f'(PC {g} {pads[0]} {pads[1]} {pads[2]} {coq_modes(modes)})'
+    w3 = w if w.ndim == 3 else w[:, :, None]
     expr = (f'(Zlll_eqb (el3d_orig {c}) {zl(m.el3d_orig.tolist())} && Zlll_eqb (el3d_pad {c}) {zl(m.el3d_pad.tolist())} && '
-            f'Qlll_eqb (xpad_arr {c} [] {ql(qarr(x))}%Q) {ql(qarr(xp))}%Q && '
-            f'Zl_eqb [ppx (fc_pad (mk_fconv {g} {ql(qarr(w if w.ndim == 3 else w[:, :, None]))}%Q {coq_modes(modes)} [])); '
-            f'ppy (fc_pad (mk_fconv {g} {ql(qarr(w if w.ndim == 3 else w[:, :, None]))}%Q {coq_modes(modes)} [])); '
-            f'ppz (fc_pad (mk_fconv {g} {ql(qarr(w if w.ndim == 3 else w[:, :, None]))}%Q {coq_modes(modes)} []))] {zl(list(m.pad_sizes))})')
+            f'Qlll_eqb (xpad_arr {c} [] {ql(qarr(x))}%Q) {ql(qarr(xp))}%Q')
+    if tag != 'pad-2d-exh':      # pad_sizes = shape // 2 through the constructor model
+        expr += (f' && (let f := mk_fconv {g} {ql(qarr(w3))}%Q {coq_modes(modes)} [] in '
+                 f'Zl_eqb [ppx (fc_pad f); ppy (fc_pad f); ppz (fc_pad f)] {zl(list(m.pad_sizes))})')
+    expr += ')'
     kinds = tuple('const' if isinstance(mm, Number) else mm for mm in modes)
     ctx.count('pad:dim%d' % (2 if nz == 0 else 3))
     ctx.count('pad:oversize' if any(pads[d] > max(1, grid[d]) for d in range(3)) else 'pad:within')
@@ -555,7 +557,7 @@ def run(ctx):
     rng = ctx.rng
     ctx.rule = ('corpus first; per-axis exhaustive padding (16 mode pairs x n<=5 x pad<=n+2 on each of the three axes); random '
                 '6-tuples of modes x grids 1..5 (2-D and 3-D, one-element-wide included) x pad sizes 0..n+2 (thorough: all 256 '
-                '4-tuples x 2-D grids <=3x3 x all pad pairs); np.pad 1-D index semantics on n<=6 x pads<=2n+3; responses/'
+                '4-tuples x 2-D grids <=3x2 x pad sizes {0,1,n+1}); np.pad 1-D index semantics on n<=6 x pads<=2n+3; responses/'
                 'sensitivities with integer or dyadic normalised kernels and integer fields incl. override_values; radius '
                 'kernels 0.3..domain+1.5 in relative/absolute units; DensityFilter H/Hs/response/sensitivity incl. nonpadding; '
                 'malformed constructor calls (exception class only).  A case is non-trivial when something is padded / the '
@@ -614,22 +616,22 @@ def run(ctx):
             pads[rng.randrange(3)] = 0
         kinds = [rng.choice(MODES) for _ in range(6)]
         return (nx, ny, nz), pads, make_modes(kinds)
-    for _ in range(350 if quick else 3000):
+    for _ in range(350 if quick else 2000):
         case_pad(ctx, pym, cs, *rand_pad_case(False))
-    for _ in range(150 if quick else 2000):
+    for _ in range(150 if quick else 1200):
         case_pad(ctx, pym, cs, *rand_pad_case(True))
     if not quick:
         for kinds4 in itertools.product(MODES, repeat=4):
             for nx in (1, 2, 3):
-                for ny in (1, 2, 3):
-                    for px in range(0, nx + 3):
-                        for py in range(0, ny + 3):
+                for ny in (1, 2):
+                    for px in (0, 1, nx + 1):
+                        for py in (0, 1, ny + 1):
                             case_pad(ctx, pym, cs, (nx, ny, 0), [px, py, 0], make_modes(list(kinds4) + ['symmetric'] * 2),
                                      tag='pad-2d-exh')
-        ctx.extra['exhaustive_2d'] = 'all 256 mode 4-tuples x grids <=3x3 x pads 0..n+2'
+        ctx.extra['exhaustive_2d'] = 'all 256 mode 4-tuples x grids {1,2,3}x{1,2} x pad sizes {0, 1, n+1} per axis'
 
     # ---- responses / sensitivities with explicit kernels
-    for t in range(110 if quick else 1500):
+    for t in range(110 if quick else 900):
         three_d = t % 3 == 2
         nx, ny = rng.randint(1, 5), rng.randint(1, 5)
         nz = rng.randint(1, 3) if three_d else 0
@@ -664,7 +666,7 @@ def run(ctx):
 
     # ---- radius kernels
     radii = [0.3, 0.75, 1.0, 1.25, 1.5, 2.0, 2.3, 2.5, 3.0, 3.7, 4.5, 5.2, 6.5]
-    for t in range(45 if quick else 700):
+    for t in range(45 if quick else 400):
         three_d = t % 3 == 2
         nx, ny = rng.randint(1, 5), rng.randint(1, 5)
         nz = rng.randint(1, 3) if three_d else 0
@@ -693,7 +695,7 @@ def run(ctx):
             oracle_const(ctx, m, m.sig_in[0], nx * ny * n1[2], modes, 'FilterConv(radius)')
 
     # ---- DensityFilter
-    for t in range(45 if quick else 600):
+    for t in range(45 if quick else 400):
         three_d = t % 3 == 2
         nx, ny = rng.randint(1, 5), rng.randint(1, 5)
         nz = rng.randint(1, 3) if three_d else 0
